@@ -16,7 +16,8 @@ TReset ==
               \* no convergence claim for the line search, nor when only a sub-list of the coordinates is optimised
               \* (block-wise histories: the minimiser of the restricted problem is not the one the driver knows)
               conv |-> IF Ev.opt = "NewtonBacktrack" \/ ~Ev.full THEN "none"
-                       ELSE IF Ev.opt \in {"Brent", "GoldenSection"} THEN "x" ELSE "f"]
+                       ELSE IF Ev.opt \in {"Brent", "GoldenSection"} THEN "x" ELSE "f",
+              bnd |-> Ev.opt = "Bfgs"]
   /\ cnt' = 0 /\ steps' = 0 /\ tol' = FALSE /\ s0' = NoRank /\ held' = NoRank /\ pend' = 0 /\ lo' = NoRank /\ touched' = FALSE
   /\ back' = "New" /\ rep' = NoRep /\ br' = NoRep
   /\ infeas' = FALSE /\ overrun' = FALSE /\ lateStep' = FALSE /\ badRaise' = FALSE /\ earlyOk' = FALSE
@@ -45,7 +46,7 @@ TraceNext == \/ TReset \/ TOptEarly \/ TRebox \/ TInitBegin \/ TEvals \/ TInitEn
 TraceInit ==
   /\ l = 1
   /\ phase = "Dead" /\ pol = "ignore" /\ box = <<>> /\ max = 0
-  /\ obj = [quad |-> FALSE, inact |-> FALSE, conv |-> "none"]
+  /\ obj = [quad |-> FALSE, inact |-> FALSE, conv |-> "none", bnd |-> FALSE]
   /\ cnt = 0 /\ steps = 0 /\ tol = FALSE /\ s0 = NoRank /\ held = NoRank /\ pend = 0 /\ lo = NoRank /\ touched = FALSE
   /\ back = "New" /\ rep = NoRep /\ br = NoRep
   /\ infeas = FALSE /\ overrun = FALSE /\ lateStep = FALSE /\ badRaise = FALSE /\ earlyOk = FALSE
